@@ -13,12 +13,12 @@ def mc_module(name: str, frame_lens, chunks) -> str:
     return (f"---- MODULE {name} ----\nEXTENDS PyFraming\nFL == <<{fl}>>\nCH == {{{ch}}}\nNoCut == -1\n====\n")
 
 
-def run_framing(name, *, delimited, frame_lens, first_row_len, cut=None, chunks=(1, 2, 3, 5), peek_once=True, hist_reads=4,
+def run_framing(name, *, delimited, frame_lens, first_row_len, cut=None, chunks=(1, 2, 3, 5), peek_once=True, hist_reads=4, read_chunk=4,
                 invariants=("HintCorrect", "ChunkingIrrelevant", "ClassifiedRight", "PrefixOnly", "NeverMore", "PrintRun"), timeout=300, workers=4):
     cfg = ["SPECIFICATION Spec", "CONSTANTS",
            f" Delimited = {'TRUE' if delimited else 'FALSE'}", " FrameLens <- FL", f" FirstRowLen = {first_row_len}",
            (" CutAt <- NoCut" if cut is None else f" CutAt = {cut}"), " Chunks <- CH",
-           f" PeekOnce = {'TRUE' if peek_once else 'FALSE'}", f" HistReads = {hist_reads}"]
+           f" PeekOnce = {'TRUE' if peek_once else 'FALSE'}", f" ReadChunk = {read_chunk}", f" HistReads = {hist_reads}"]
     cfg += [f"INVARIANT {i}" for i in invariants]
     cfg.append("CHECK_DEADLOCK FALSE")
     return tlc.run(name, "\n".join(cfg) + "\n", module_text=mc_module(name, frame_lens, chunks), workers=workers, timeout=timeout)
